@@ -221,3 +221,67 @@ pub fn miri_cli_slice(ctx: &Ctx, rep: &mut Report) {
     rep.cell("miri-cli-slice");
     let _ = std::fs::remove_dir_all(&scratch);
 }
+
+/// The edge corpus through the library pipeline under Miri (sharded over processes). Any undefined
+/// behaviour report with a typeshare frame is a witness; a clean pass is "no report on N operations".
+pub fn miri_lib_slice(ctx: &Ctx, rep: &mut Report) {
+    let cases = crate::checks::c07::corpus_sources();
+    let dir = ctx.build.join(format!("miri-lib-{}", ctx.tag));
+    let _ = std::fs::create_dir_all(dir.join("src"));
+    let manifest = format!(
+        "[package]\nname = \"miri_lib\"\nversion = \"0.1.0\"\nedition = \"2021\"\n\n[workspace]\n\n[dependencies]\ntypeshare-core = {{ path = \"{}/core\" }}\n",
+        ctx.repo.display()
+    );
+    std::fs::write(dir.join("Cargo.toml"), manifest).unwrap();
+    if !dir.join("Cargo.lock").exists() {
+        let _ = std::fs::copy(ctx.repo.join("Cargo.lock"), dir.join("Cargo.lock"));
+    }
+    let mut main = String::from(
+        "use std::collections::{BTreeMap, HashMap};\nuse typeshare_core::{context::*, language::*, parser::*, reconcile::reconcile_aliases};\n\nfn one(src: &str, which: usize) -> &'static str {\n    let pc = ParseContext::default();\n    let r = std::panic::catch_unwind(|| {\n        let pfc = ParseFileContext { source_code: src.to_string(), crate_name: SINGLE_FILE_CRATE_NAME, file_name: \"o\".into(), file_path: \"src/lib.rs\".into() };\n        let Ok(Some(pd)) = parse(&pc, pfc) else { return };\n        let mut m = BTreeMap::new();\n        m.insert(SINGLE_FILE_CRATE_NAME, pd);\n        reconcile_aliases(&mut m);\n        let pd = m.remove(&SINGLE_FILE_CRATE_NAME).unwrap();\n        if !pd.errors.is_empty() { return; }\n        let mut out = Vec::new();\n        let mut lang: Box<dyn Language> = match which % 6 {\n            0 => Box::new(TypeScript::default()),\n            1 => Box::new(Swift::default()),\n            2 => Box::new(Kotlin { package: \"a.b\".into(), ..Default::default() }),\n            3 => Box::new(Scala { package: \"a.b\".into(), ..Default::default() }),\n            4 => Box::new(Go { package: \"g\".into(), ..Default::default() }),\n            _ => Box::new(Python::default()),\n        };\n        let _ = lang.generate_types(&mut out, &HashMap::new(), pd);\n    });\n    if r.is_ok() { \"ok\" } else { \"panic\" }\n}\n\nfn main() {\n    std::panic::set_hook(Box::new(|_| {}));\n    let args: Vec<String> = std::env::args().collect();\n    let shard: usize = args[1].parse().unwrap();\n    let shards: usize = args[2].parse().unwrap();\n    let mut n = 0;\n    for (i, (name, src)) in CASES.iter().enumerate() {\n        if i % shards != shard { continue; }\n        let r = one(src, i);\n        println!(\"CASE {name} {r}\");\n        n += 1;\n    }\n    println!(\"DONE {n}\");\n}\n\nconst CASES: &[(&str, &str)] = &[\n",
+    );
+    for (name, src) in &cases {
+        main.push_str(&format!("    ({:?}, {:?}),\n", name, src));
+    }
+    main.push_str("];\n");
+    std::fs::write(dir.join("src/main.rs"), main).unwrap();
+    let shards = 16usize;
+    let run_one = |shard: usize| -> (bool, String, String) {
+        let o = Command::new("cargo")
+            .args(["+nightly", "miri", "run", "--offline", "-q", "--"])
+            .arg(shard.to_string())
+            .arg(shards.to_string())
+            .current_dir(&dir)
+            .env("MIRIFLAGS", "-Zmiri-permissive-provenance")
+            .env("CARGO_NET_OFFLINE", "true")
+            .env("CARGO_TARGET_DIR", dir.join("target"))
+            .env_remove("RUSTFLAGS")
+            .output();
+        match o {
+            Ok(o) => (o.status.success(), String::from_utf8_lossy(&o.stdout).into_owned(), String::from_utf8_lossy(&o.stderr).into_owned()),
+            Err(e) => (false, String::new(), e.to_string()),
+        }
+    };
+    let first = run_one(0);
+    let mut all = vec![first];
+    let rest: Vec<(bool, String, String)> = std::thread::scope(|s| {
+        let hs: Vec<_> = (1..shards).map(|k| { let r = &run_one; s.spawn(move || r(k)) }).collect();
+        hs.into_iter().map(|h| h.join().unwrap()).collect()
+    });
+    all.extend(rest);
+    for (k, (ok, stdout, stderr)) in all.iter().enumerate() {
+        let done = stdout.lines().filter(|l| l.starts_with("CASE ")).count() as u64;
+        rep.eval(done);
+        rep.count("miri_library_operations", done);
+        if stderr.contains("Undefined Behavior") {
+            let frame = stderr.lines().find(|l| l.contains("core/src")).unwrap_or("").trim().to_string();
+            if frame.is_empty() {
+                rep.inconclusive("miri-report-in-third-party-code", json!({"shard": k, "stderr_tail": stderr.chars().rev().take(600).collect::<String>().chars().rev().collect::<String>()}));
+            } else {
+                rep.violate(format!("C07|miri|{}", frame.chars().take(100).collect::<String>()), format!("Miri: undefined behaviour at {frame}"), json!({"shard": k, "stderr": stderr.chars().take(3000).collect::<String>(), "last_case": stdout.lines().last()}));
+            }
+        } else if !ok {
+            rep.inconclusive("miri-lib-run-failed", json!({"shard": k, "stderr_tail": stderr.chars().rev().take(500).collect::<String>().chars().rev().collect::<String>()}));
+        }
+    }
+    rep.cell("miri-library-slice");
+}
